@@ -28,3 +28,30 @@ Theorem C09_shortcut_result :
   boxes_disjoint (f_sbbox (fill_queue A B op)) (f_cbbox (fill_queue A B op)) = true ->
   boolean_operation cfg fuel A B op = Ok (trivial_result A B op).
 Proof. exact disjoint_boxes_trivial. Qed.
+
+(** the shortcut does not change the answer: when it is taken, the result is the named region
+    at every point of the plane (exact instance; see C01 for the hypotheses) — the same region
+    the sweep is certified to return per run *)
+From Coq Require Import QArith.
+From GB Require Import NumQ Cert Slab Scene BoxRegion BoxShortcut.
+Theorem C09_shortcut_returns_named_region :
+  forall cfg fuel (A B : list (FillQueue.polygon NQ)) (op : operation) (ra rb : list qpolygon),
+  c_noshort cfg = false ->
+  mpoly_q NQ conv_Q A = Some ra -> mpoly_q NQ conv_Q B = Some rb ->
+  vertices_are_starts A -> vertices_are_starts B ->
+  boxes_disjoint (f_sbbox (fill_queue A B op)) (f_cbbox (fill_queue A B op)) = true ->
+  exists R r,
+    boolean_operation cfg fuel A B op = Ok R /\ mpoly_q NQ conv_Q R = Some r /\
+    forall p,
+      inside_mpoly ra p = inside_eo (rings_of ra) p -> inside_mpoly rb p = inside_eo (rings_of rb) p ->
+      inside_mpoly r p = sem_op (bop_of op) (inside_eo (rings_of ra) p) (inside_eo (rings_of rb) p).
+Proof. exact shortcut_returns_named_region. Qed.
+
+(** regions of operands inside disjoint boxes are disjoint: no point is in both *)
+Theorem C09_disjoint_boxes_disjoint_regions :
+  forall (a b : list Slab.ring) (a0 b0 a1 b1 c0 d0 c1 d1 : Q),
+  (forall r v, In r a -> In v r -> in_box a0 b0 a1 b1 v) ->
+  (forall r v, In r b -> In v r -> in_box c0 d0 c1 d1 v) ->
+  (c1 < a0 \/ a1 < c0 \/ d1 < b0 \/ b1 < d0)%Q ->
+  forall p, (inside_eo a p && inside_eo b p)%bool = false.
+Proof. exact disjoint_boxes_disjoint_regions. Qed.
